@@ -189,20 +189,32 @@ theorem exec_mass (code : Code) (origin : Addr) :
             · rw [mass_revertTo]; rfl
       | authcall to v =>
         simp only [exec, revertToJ_true]
-        rw [ih]
         split
         · rfl
-        · rename_i hg
+        · rw [ih]
           split
-          · rw [ih]; exact mass_transfer s origin to v (by simpa using hg)
-          · rw [mass_revertTo]
-      | stake v => simp only [exec, revertToJ_true]; rw [ih]; exact mass_opStake s self v
-      | unstake v => simp only [exec, revertToJ_true]; rw [ih]; exact mass_opUnStake code origin s self v
+          · rfl
+          · rename_i hg
+            split
+            · rw [ih]; exact mass_transfer s origin to v (by simpa using hg)
+            · rw [mass_revertTo]
+      | stake v =>
+        simp only [exec, revertToJ_true]
+        split
+        · rfl
+        · rw [ih]; exact mass_opStake s self v
+      | unstake v =>
+        simp only [exec, revertToJ_true]
+        split
+        · rfl
+        · rw [ih]; exact mass_opUnStake code origin s self v
       | unstakeAll =>
         simp only [exec, revertToJ_true]
-        cases hu : opUnStakeAll code s self with
-        | none => rfl
-        | some s1 => simp only; rw [ih]; exact mass_opUnStakeAll code s self s1 hu
+        split
+        · rfl
+        · cases hu : opUnStakeAll code s self with
+          | none => rfl
+          | some s1 => simp only; rw [ih]; exact mass_opUnStakeAll code s self s1 hu
 
 theorem burned_opStake (s : St) (self : Addr) (v : Nat) : (opStake s self v).burned = s.burned := by
   unfold opStake
@@ -308,28 +320,36 @@ theorem exec_burned_mono (code : Code) (origin : Addr) :
             · exact Nat.le_refl _
       | authcall to v =>
         simp only [exec, revertToJ_true]
-        refine Nat.le_trans ?_ (ih _ _ _ _)
         split
         · exact Nat.le_refl _
-        · split
-          · exact ih _ _ _ { s with bal := vmTransfer s.bal origin to v }
+        · refine Nat.le_trans ?_ (ih _ _ _ _)
+          split
           · exact Nat.le_refl _
+          · split
+            · exact ih _ _ _ { s with bal := vmTransfer s.bal origin to v }
+            · exact Nat.le_refl _
       | stake v =>
         simp only [exec, revertToJ_true]
-        refine Nat.le_trans ?_ (ih _ _ _ _)
-        rw [burned_opStake]; exact Nat.le_refl _
+        split
+        · exact Nat.le_refl _
+        · refine Nat.le_trans ?_ (ih _ _ _ _)
+          rw [burned_opStake]; exact Nat.le_refl _
       | unstake v =>
         simp only [exec, revertToJ_true]
-        refine Nat.le_trans ?_ (ih _ _ _ _)
-        rw [burned_opUnStake]; exact Nat.le_refl _
+        split
+        · exact Nat.le_refl _
+        · refine Nat.le_trans ?_ (ih _ _ _ _)
+          rw [burned_opUnStake]; exact Nat.le_refl _
       | unstakeAll =>
         simp only [exec, revertToJ_true]
-        cases hu : opUnStakeAll code s self with
-        | none => exact Nat.le_refl _
-        | some s1 =>
-          simp only
-          refine Nat.le_trans ?_ (ih _ _ _ _)
-          rw [burned_opUnStakeAll code s self s1 hu]; exact Nat.le_refl _
+        split
+        · exact Nat.le_refl _
+        · cases hu : opUnStakeAll code s self with
+          | none => exact Nat.le_refl _
+          | some s1 =>
+            simp only
+            refine Nat.le_trans ?_ (ih _ _ _ _)
+            rw [burned_opUnStakeAll code s self s1 hu]; exact Nat.le_refl _
 
 /-! ### the sum of balances never grows inside the EVM -/
 
@@ -469,29 +489,37 @@ theorem exec_total_le (code : Code) (origin : Addr) :
             · exact Nat.le_refl _
       | authcall to v =>
         simp only [exec, revertToJ_true]
-        refine Nat.le_trans (ih _ _ _ _) ?_
         split
         · exact Nat.le_refl _
-        · rename_i hg
+        · refine Nat.le_trans (ih _ _ _ _) ?_
           split
-          · refine Nat.le_trans (ih _ _ _ _) ?_
-            simp only
-            rw [total_transfer_eq s origin to v (by simpa using hg)]; exact Nat.le_refl _
           · exact Nat.le_refl _
+          · rename_i hg
+            split
+            · refine Nat.le_trans (ih _ _ _ _) ?_
+              simp only
+              rw [total_transfer_eq s origin to v (by simpa using hg)]; exact Nat.le_refl _
+            · exact Nat.le_refl _
       | stake v =>
         simp only [exec, revertToJ_true]
-        exact Nat.le_trans (ih _ _ _ _) (total_opStake_le s self v)
+        split
+        · exact Nat.le_refl _
+        · exact Nat.le_trans (ih _ _ _ _) (total_opStake_le s self v)
       | unstake v =>
         simp only [exec, revertToJ_true]
-        refine Nat.le_trans (ih _ _ _ _) ?_
-        rw [bal_opUnStake]; exact Nat.le_refl _
+        split
+        · exact Nat.le_refl _
+        · refine Nat.le_trans (ih _ _ _ _) ?_
+          rw [bal_opUnStake]; exact Nat.le_refl _
       | unstakeAll =>
         simp only [exec, revertToJ_true]
-        cases hu : opUnStakeAll code s self with
-        | none => exact Nat.le_refl _
-        | some s1 =>
-          simp only
-          refine Nat.le_trans (ih _ _ _ _) ?_
-          rw [bal_opUnStakeAll code s self s1 hu]; exact Nat.le_refl _
+        split
+        · exact Nat.le_refl _
+        · cases hu : opUnStakeAll code s self with
+          | none => exact Nat.le_refl _
+          | some s1 =>
+            simp only
+            refine Nat.le_trans (ih _ _ _ _) ?_
+            rw [bal_opUnStakeAll code s self s1 hu]; exact Nat.le_refl _
 
 end Rangers.Ledger
